@@ -4,7 +4,7 @@ use super::common::*;
 use super::{Property, Tier, Verdict};
 use crate::entropy::Rng;
 use crate::exec::{Op, ProbeMsg, RunLog, Scenario, TokenSpec, When};
-use crate::krpc::{self, id20, parse_values, Kind};
+use crate::krpc::{id20, parse_values, Kind};
 use serde_json::json;
 use std::collections::{BTreeMap, BTreeSet};
 use std::net::SocketAddr;
